@@ -171,8 +171,16 @@ func TestCheck(t *testing.T) {
 		"thorough: all pools, every listing order of every subset for 2 routes, 5 more pool pairs, A->B->A. "+
 		"Multi-target outbound (mout_*, me2e_*): 2..3 signed targets, each its own subset of the pool / selection mode (5 patterns incl. all targets the same mode) / header names, every grouping of the targets into routes, "+
 		"every target at all 20 clock instants through one HTTPDeliverer (Deliver calls) and end to end through the running dispatcher; a push request has to be signed by the version the rule picks among the target's OWN versions and is not sent when none of them is valid. "+
+		"Written window bounds (bnd_*): the TEXT of valid_from / valid_until as a dimension. Per group (anchor second S = 2000-01-01T00:01:10Z, 1969-12-31T23:59:59Z, 1970-01-01T00:00:00Z, 9999-12-31T23:59:58Z, 0000-12-31T23:59:59Z; thorough also the two seconds in which int64 nanoseconds end, 2262 and 1677) "+
+		"the written instants S+{0, 1ns, .5s, .999999999s, 1s} x zone {Z, +02:00, -07:00, +14:00} (main spellings), plus S+.5s at +05:30 and S+1s at -09:30, plus the alternative spellings lower-case t, lower-case z, +00:00, -00:00, comma fraction, nine-digit fraction, .0 / .000000000, surrounding blanks, "+
+		"plus 9999-12-31T23:59:59.999999999Z and 9999-12-31T23:59:59-07:00 (an instant in year 10000). Scenario families: k1=[W,-), k1=[F0,W) over all spellings; k1=[W,W'), hand-over k1=[F0,W) k2=[W',-), k1=[W,-) k2=[W',-) over every ordered pair (W,W') of main spellings "+
+		"(thorough: of all spellings, and chains k1=[F0,W1) k2=[W2,W3) k3=[W4,-) over the written instants) - so equal bounds in different spellings, bounds 1 ns apart, 1-ns windows, gaps and overlaps inside one second and until<=from all occur. "+
+		"Each scenario: one Deliver call per selection mode at every clock instant of the group (each written instant, 1 ns before and after it, the whole seconds before/at/after it, one instant in 2000; ascending) and one inbound request per signer {each version, unconfigured} x "+
+		"signed timestamp (those whole seconds, as far as an inbound request can carry them) x route {tolerance 100000d, default tolerance}. Reference: the harness reads the text it wrote with its own RFC 3339 reader (integer arithmetic, proleptic Gregorian, no package time): "+
+		"valid iff from <= t < until as written. A configuration the application refuses to start is counted (bnd_*_refused_*) and not judged; what starts has to read every bound as written. "+
 		"Race side pass (TestRace, -race build): concurrent signed requests to three routes with different lists, reloads that reorder them, and concurrent Deliver calls for three targets on one deliverer.")
-	r.Assume("time lattice t0=2000-01-01T00:01:00Z, step 10s; windows with sub-second bounds are not enumerated")
+	r.Assume("time lattice t0=2000-01-01T00:01:00Z, step 10s in every part but the written-bounds part (bnd_*), which is the one that enumerates sub-second bounds, zone offsets, spellings and extreme years - on sets of <= 2 versions (thorough: chains of 3), one route / target per set")
+	r.Assume("written bounds: fractions of more than 9 digits, leap seconds (:60), 24:00:00, offsets beyond +-14:00 and years outside 0000..9999 are not written; a refused configuration (e.g. lower-case t/z, valid_until not after valid_from, a bound at 0001-01-01T00:00:00Z) is an admissible outcome and is not judged; inbound timestamps further than 100000d from the bubble clock (year 9999, year 1) cannot be presented, those groups are judged inbound at the clock's own second only")
 	r.Assume("ties by id: the documentation does not say which id wins, so either end of the id order is accepted, but it has to be the same end for a selection mode everywhere and must not depend on the order of the secret_ref lines")
 	r.Assume("`cannot be loaded`: an env: ref whose variable is unset at signing time (set during boot for versions of the secrets block, because loadAuth refuses to boot otherwise; boot refusal itself is probed separately); file:/vault: refs use the same LoadRef path and are not enumerated")
 	r.Assume("methods other than POST are only reachable through the Deliverer API (the dispatcher always uses POST); lower-case method spellings are not enumerated")
